@@ -242,3 +242,16 @@ Proof.
   - apply (proj1 (detect_suffix stem _)). right. reflexivity.
   - apply (proj2 (detect_suffix stem _)). reflexivity.
 Qed.
+
+Lemma detect_all stem suf t name :
+  (to_lower suf = s_dot_bw \/ to_lower suf = s_dot_bigwig -> detect_output None (stem ++ suf) = Some OBigWig) /\
+  (to_lower suf = s_dot_bedgraph -> detect_output None (stem ++ suf) = Some OBedGraph) /\
+  (to_lower t = s_bigwig -> detect_output (Some t) name = Some OBigWig) /\
+  (to_lower t = s_bedgraph -> detect_output (Some t) name = Some OBedGraph) /\
+  detect_output None (stem ++ [46; 98; 119]) = Some OBigWig /\
+  detect_output None (stem ++ [46; 98; 105; 103; 87; 105; 103]) = Some OBigWig /\
+  detect_output None (stem ++ [46; 98; 101; 100; 71; 114; 97; 112; 104]) = Some OBedGraph.
+Proof.
+  exact (conj (proj1 (detect_suffix stem suf)) (conj (proj2 (detect_suffix stem suf))
+        (conj (proj1 (detect_type t name)) (conj (proj2 (detect_type t name)) (detect_documented stem))))).
+Qed.
